@@ -72,6 +72,45 @@ def mkdata(oid, n, rng):
     return b'N.' + pickle.dumps((oid, n, '.' * pad), 3)
 
 
+class _Ref:
+    def __init__(self, oid):
+        self.oid = oid
+
+
+def mkrefdata(n, refs):
+    """a two-pickle record whose state holds persistent references to `refs` (for gc packs)"""
+    f = io.BytesIO()
+    for obj in (None, (n, [_Ref(p64(o)) for o in refs])):
+        pk = pickle.Pickler(f, 3)
+        pk.persistent_id = lambda o: o.oid if isinstance(o, _Ref) else None
+        pk.dump(obj)
+    return f.getvalue()
+
+
+GC_KINDS = ('mapping', 'mvcc', 'cfg-mapping', 'file', 'fileblob', 'hexfile', 'cfg-file', 'demo-mm', 'demo-mf')
+
+
+def gc_scenario(rng, steps, tid):
+    """prepend: a root (oid 0) referencing two objects, one of which references a third; then the
+    root drops one and the other drops its child: two objects become unreachable; then a pack WITH
+    garbage collection after that, and one more revision.  The source's iterator must no longer
+    yield the collected objects' records — a copy must not bring them back."""
+    def add(ops, d=b'gc'):
+        nonlocal tid
+        steps.append(dict(t=tid, u='', d=d.hex(), e=None, ops=ops))
+        tid += GAP
+    n = rng.randrange(1000)
+    add([['s', 0, mkrefdata(n, [20, 21]).hex()], ['s', 20, mkrefdata(n, [22]).hex()],
+         ['s', 21, mkrefdata(n, []).hex()], ['s', 22, mkrefdata(n, []).hex()]])
+    add([['s', 0, mkrefdata(n + 1, [20]).hex()]])
+    if rng.random() < 0.5:
+        add([['s', 21, mkrefdata(n + 2, []).hex()]])       # garbage written again after it became garbage
+    add([['s', 20, mkrefdata(n + 3, []).hex()]])
+    steps.append(dict(pack=tid - GAP // 2, gc=True))
+    add([['s', 20, mkrefdata(n + 4, []).hex()]])
+    return tid
+
+
 def mkblobdata(n):
     return b'cZODB.blob\nBlob\n.' + pickle.dumps(n, 3)
 
@@ -98,6 +137,11 @@ def gen_program(rng, kind, ntx=None, small=False, multi_undo=None):
     split = rng.randrange(1, ntx) if kind.startswith('demo') else 0
     n = 0
     tid = BASE + GAP * rng.choice([1, 1, 5])
+    presteps = 0
+    chg_start = None
+    if kind in GC_KINDS and not small and rng.random() < 0.3:
+        tid = gc_scenario(rng, steps, tid)
+        presteps = sum(1 for x in steps if 'pack' not in x)
     for i in range(ntx):
         ops = []
         nops = rng.choice([1, 1, 2, 2, 3]) if not small else rng.choice([1, 2])
@@ -105,13 +149,15 @@ def gen_program(rng, kind, ntx=None, small=False, multi_undo=None):
         if empty:
             nops = 0
         in_changes = kind.startswith('demo') and i >= split
+        if in_changes and chg_start is None:
+            chg_start = len(steps)                 # index of the first step of the changes layer
         for _ in range(nops):
             r = rng.random()
             # DemoStorage: only transactions of the changes layer whose objects have no revision in
             # the base (undo below the changes layer is the open finding C17:copy-demo-undo-below-changes,
             # exercised by its own corpus probe)
             cands = [j for j in undoable if (not kind.startswith('demo')) or
-                     (j >= split and not (step_oids.get(j, set()) & base_oids))]
+                     (chg_start is not None and j >= chg_start and not (step_oids.get(j, set()) & base_oids))]
             if canundo and cands and r < 0.42 and (in_changes or not kind.startswith('demo')) \
                     and not ops:
                 # mostly the newest candidate: undo of an undo gives multi-hop back-pointer chains
@@ -165,7 +211,7 @@ def gen_program(rng, kind, ntx=None, small=False, multi_undo=None):
         tid = blob_undo_scenario(rng, steps, tid)
     if canundo and rng.random() < (0.35 if multi_undo is None else multi_undo):
         tid = uncreation_chain_scenario(rng, steps, tid, rng.choice([3, 4, 5]), candel and rng.random() < 0.5)
-    prog = dict(kind=kind, steps=steps, split=split)
+    prog = dict(kind=kind, steps=steps, split=split + presteps if kind.startswith('demo') else split)
     if not small and rng.random() < 0.06:
         # boundary values: a record larger than 64 KiB (utils.cp chunks) followed by a small one;
         # user / description / extension at the 65535 limit
@@ -327,7 +373,7 @@ def run_steps(st, steps, serial, tids, d, built, index0=0):
         if 'pack' in s:
             try:
                 try:
-                    st.pack(pack_time(s['pack']), referencesf, gc=False)
+                    st.pack(pack_time(s['pack']), referencesf, gc=bool(s.get('gc')))
                 except TypeError:
                     st.pack(pack_time(s['pack']), referencesf)
                 built.packs += 1
@@ -962,6 +1008,10 @@ def judge_copy(case, res):
     for k in sorted(sq):
         if sq[k] != dq.get(k):
             sig = 'C17:copy-query-differs:' + k.split()[0]
+            if k.startswith(('load ', 'loadSerial ', 'loadBefore ', 'getTid ')) and sq[k] == 'err:KeyError' \
+                    and dq.get(k) not in ('err:KeyError', None):
+                # an oid the source's iterator mentions, which the source no longer has, is back in the copy
+                sig = 'C17:copy-resurrects'
             if case['prog']['kind'].startswith('demo') and demo_undo_below_changes(res['src_dump'], k):
                 sig = 'C17:copy-demo-undo-below-changes'
             return (sig, '%s: source %r destination %r' % (k, sq[k], dq.get(k)))
